@@ -74,6 +74,10 @@ func (p *propC02) Gen(idx int) *Scenario {
 		o.OnlyMesg = 0 // free mix of all hosted messages
 		o.NData = r.Range(1, 25)
 	}
+	if idx%307 == 5 {
+		o.NData = r.Range(600, 2500) // long streams: many buffer refills, containers past 512 entries
+		o.MaxFields = 4
+	}
 	rs := genStream(r, o)
 	if r.Chance(1, 40) {
 		withJumbo(r, rs)
